@@ -25,7 +25,7 @@ var gcChurn [][]byte
 // gcCollect (native replays only): collect twice, then allocate garbage of the small size classes so that any
 // object the collector wrongly freed is overwritten before it is read back.
 func gcCollect() {
-	if !vpGCNative {
+	if !vpGCNative() {
 		return
 	}
 	runtime.GC()
